@@ -80,4 +80,8 @@ theorem source_msgGetSender : GeneratedSrc.msgGetSender = ExpectedSrc.msgGetSend
 theorem source_kpProduce : GeneratedSrc.kpProduce = ExpectedSrc.kpProduce := by rfl
 theorem source_kpProcess : GeneratedSrc.kpProcess = ExpectedSrc.kpProcess := by rfl
 
+theorem source_exSendMessageFn : GeneratedSrc.exSendMessageFn = ExpectedSrc.exSendMessageFn := by rfl
+theorem source_exAckMessageFn : GeneratedSrc.exAckMessageFn = ExpectedSrc.exAckMessageFn := by rfl
+theorem source_exNewMessage : GeneratedSrc.exNewMessage = ExpectedSrc.exNewMessage := by rfl
+
 end Firebolt.C12
